@@ -21,7 +21,7 @@ BUDGET = {'quick': 4000, 'thorough': 20000}
 RULE = ("Case = 2-6 blocks from {relay probe, Input, Counter, 2-state FSM (plain / chained self-event from "
         "its entry action / zero-length timer), Repeat(count=0), OutputFunc} with 0-3 outgoing events each "
         "(forward, on_output, on_every_output, on_enter_S, on_exit_S, events sent by the FSM's exit actions, on_success; destination any block incl. "
-        "itself; filter in {none, reject, pass, edit}; event type plain or EventCond(t, None) / "
+        "itself; 1 in 12 of a type unknown to the destination; filter in {none, reject, pass, edit}; event type plain or EventCond(t, None) / "
         "EventCond(None, t)) and an external sequence of <=4 events (normal, unknown type, missing "
         "parameter) followed by one normal event to every block. Compared with the model: start-up "
         "verdict, per-step outcome (return value / EdzedCircuitError / benign exception), Circuit.error, "
@@ -55,6 +55,11 @@ class Busy(Exception):
     pass
 
 
+class Unknown(Exception):
+    """the destination does not know the event type: EdzedUnknownEvent, a non-fatal error that
+    propagates through all the handlers on the way back to the original sender"""
+
+
 # ---------------------------------------------------------------- generator
 @st.composite
 def cases(draw):
@@ -82,6 +87,8 @@ def cases(draw):
                 # output events normally skip the change from UNDEF; some do not, so that events
                 # also travel while the circuit is being initialised
                 'nfu': draw(st.integers(0, 9)) < 6,
+                # an event of a type the destination does not know (fails non-fatally)
+                'bad': draw(st.integers(0, 11)) == 0,
             })
     # a Repeat cannot repeat an EventCond; its own destination edge is plain
 
@@ -123,6 +130,8 @@ class Model:
         self.busy = [False] * n
         self.inited = [False] * n
         self.cur = [UNDEF] * n          # input value / counter value / fsm state / relay count
+        self.fsm_out = [UNDEF] * n      # output of an FSM (may lag behind the state after a failed event)
+        self.unknown = 0                # non-fatal failures of internal events
         self.hit = False                # a busy block was hit at least once
         self.blocked = 0                # cycles broken by filter / cond / no change
 
@@ -135,7 +144,7 @@ class Model:
             if e['filter'] == 'reject':
                 self.blocked += 1
                 continue
-            self.deliver(e['dst'], e['cond'], value)
+            self.deliver(e['dst'], e['cond'], value, 'nonexistent' if e.get('bad') else None)
 
     def deliver(self, i, cond, value, etype=None):
         """event addressed to block i; returns the handler's result"""
@@ -153,6 +162,9 @@ class Model:
                     self.init(i)
                 finally:
                     self.busy[i] = True
+            if etype == 'nonexistent' and self.blocks[i]['kind'] != 'repeat':
+                self.unknown += 1
+                raise Unknown()
             return self.handle(i, etype or etype_of(self.blocks, i), value)
         finally:
             self.busy[i] = False
@@ -178,6 +190,7 @@ class Model:
             self.busy[i] = True
             try:
                 self.cur[i] = 'a'
+                self.fsm_out[i] = FSM_OUT['a']
                 self.send_edges(i, 'on_output', FSM_OUT['a'], UNDEF)
                 self.send_edges(i, 'on_enter_a', FSM_OUT['a'])
             finally:
@@ -209,17 +222,20 @@ class Model:
         if kind == 'fsm':
             old = self.cur[i]
             self.send_edges(i, 'exit_hook_' + old, FSM_OUT[old])    # the exit action (may send events)
-            self.send_edges(i, 'on_exit_' + old, FSM_OUT[old])
+            self.send_edges(i, 'on_exit_' + old, self.fsm_out[i])
             new = 'b' if old == 'a' else 'a'
             if new == 'b' and b['variant'] in ('chain', 'zero_timer'):
                 # 'b' is an intermediate state: no events, no output, but its exit action runs
                 # (the block is still handling the event)
+                self.cur[i] = 'b'
                 self.send_edges(i, 'exit_hook_b', FSM_OUT['b'])
                 new = 'a'
             self.cur[i] = new
-            if FSM_OUT[new] != FSM_OUT[old]:
-                self.send_edges(i, 'on_output', FSM_OUT[new], FSM_OUT[old])
-            self.send_edges(i, 'on_enter_' + new, FSM_OUT[new])
+            if FSM_OUT[new] != self.fsm_out[i]:
+                prev = self.fsm_out[i]
+                self.fsm_out[i] = FSM_OUT[new]
+                self.send_edges(i, 'on_output', FSM_OUT[new], prev)
+            self.send_edges(i, 'on_enter_' + new, self.fsm_out[i])
             return True
         if kind == 'repeat':
             if etype != b['etype']:
@@ -243,6 +259,9 @@ class Model:
             return True
         except Busy:
             return False
+        except Unknown:
+            # any exception leaving an initialisation routine fails the start-up
+            return 'unknown'
 
     def step(self, s):
         i = s['blk']
@@ -257,6 +276,8 @@ class Model:
             return self.deliver(i, None, s['value'])
         except Busy:
             return ['EXC', 'EdzedCircuitError']
+        except Unknown:
+            return ['EXC', 'EdzedUnknownEvent']
 
 
 # ---------------------------------------------------------------- real circuit
@@ -327,7 +348,7 @@ def mkfsm(variant):
 
 def mkevent(blocks, e, output_event):
     dst = e['dst']
-    base = etype_of(blocks, dst)
+    base = 'nonexistent' if e.get('bad') else etype_of(blocks, dst)
     if e['cond'] == 'tn':
         etype = edzed.EventCond(base, None)
     elif e['cond'] == 'nt':
@@ -424,6 +445,12 @@ def execute(case):
 
     model = Model(case)
     started = model.startup()
+    if started == 'unknown':
+        if obs['started']:
+            res.fail('C11.startup', "start-up succeeded although an initialisation routine failed with "
+                     "EdzedUnknownEvent")
+        res.classes = ['unknown event during start-up']
+        return res
     if started != obs['started']:
         res.fail('C11.startup', f"start-up {'succeeded' if obs['started'] else 'failed: ' + str(obs.get('init_error'))}, "
                  f"model predicts {'success' if started else 'a recursive event during start-up'}")
@@ -489,5 +516,7 @@ def execute(case):
         res.classes.append('cycle broken by filter/condition/no change')
     if any(s['how'] != 'normal' for s in case['seq']):
         res.classes.append('benign bad event present')
+    if model.unknown:
+        res.classes.append('internal event refused by its destination (non-fatal)')
     res.outcome = {'fatal': fatal, 'steps': len(obs['steps'])}
     return res
